@@ -31,6 +31,11 @@ def check(ctx):
         cat = catalogue(a, cls)
         cq = cls_short(cls.qual)
         lc = lifecycle(a, cls)
+        ctx.ob("Y-MODE", "%s the session mode is recorded when connect() is accepted, before any loss can happen" % cq, lc.clean_at_connect,
+               where=where(lc.clean_event) if lc.clean_event is not None else cls.module.path,
+               function=lc.clean_event.func if lc.clean_event is not None else "", construct="session-mode/recorded-at-connect",
+               msg="the field the loss path tests (self.%s) is not assigned from CONNECT's cleanStart on every accepting path of connect(): a connection "
+                   "lost during the handshake is handled with the previous (or default) session mode" % lc.clean)
         ctx.ob("Y-SPLIT", "%s accepted CONNACK distinguishes clean and persistent sessions" % cq, bool(lc.ack_clean) and bool(lc.ack_persist),
                where=cls.module.path, construct="connack/clean-test", msg="clean: %d persistent: %d unsplit: %d" % (len(lc.ack_clean), len(lc.ack_persist), len(lc.ack_unsplit)))
         # Y1: a non-clean loss fires nothing
